@@ -477,10 +477,14 @@ def groups_result(tasks, select=None, budget_ms=12000):
     from pyvc import solve
     from pyvc.run import PropResult
     res = solve.run_groups(tasks, budget_ms=budget_ms)
-    obls = []; undecided = []; seen = set(); stats = {}; derived = set()
+    obls = []; undecided = []; seen = set(); stats = {}; derived = set(); cross = []
     for name, status, payload, info, st_, der in res:
         if status != "ok":
             undecided.append((name, payload)); continue
+        if isinstance(info, dict) and info.get("cross_check"): cross.append({"group": name, **info["cross_check"]})
+        if isinstance(info, dict):
+            for k_ in ("construct_rules_used", "cases", "table"):
+                if k_ in info: stats[k_] = info[k_]
         derived |= set(der)
         for k, v in st_.items(): stats[k] = stats.get(k, 0) + v
         for o in payload:
@@ -490,7 +494,7 @@ def groups_result(tasks, select=None, budget_ms=12000):
     class _E: pass
     e = _E(); e.stats = stats
     r = PropResult(obls, e, derived=sorted(derived), undecided=undecided)
-    r.pre_discharged = True
+    r.pre_discharged = True; r.cross = cross
     return r
 
 def hdlc_result(repo, tier, frame_want, reader, select=None, budget_ms=12000):
